@@ -119,9 +119,11 @@ CLAIMED["C02"] = dict(
          "code, modelled as a parameter); W is refuted by the dependency for codecs 1/2 with erasures on rare patterns: known finding F19.")
 
 _ECC_NOTE = ("Trusted: Lean kernel and standard axioms; per-file model lean/Pff/Model/Ecc.lean validated by replaying the recorded hash/check/"
-             "decode calls of real runs; PARTIAL: the theorems cover the per-file block logic for arbitrary hash/decoder; entry scanning "
-             "(proved separately as C14), field splitting, intra-ecc of path/size, counters and OS effects are decided by differential "
-             "execution of the real tools, not by a composed theorem.")
+             "decode calls of real runs; run model lean/Pff/Model/Run.lean (scan loop, cursor, field splitting, intra-ecc, int(), lookup, "
+             "size check, per-file logic by file positions, counters, outputs, exit status, generation) validated by replaying complete real "
+             "runs and by byte-exact comparison of generated ecc files. Composed run-level theorems (Props/RunA, RunB, RunC, Bridge, Chain) "
+             "sit on top of the per-layer ones. Outside the composition: argument parsing, root relocation and path normalisation, log "
+             "output, OS effects (exercised by execution) and the third-party decoder (contract W).")
 CLAIMED["C04"] = dict(
     text="Kernel-checked theorems over a model of the per-file repair loops of both tools with an ARBITRARY hash and an ARBITRARY decoder "
          "(any bytes or failure, i.e. damage of any weight to file, track, or both, truncated and over-long tracks): every block written "
@@ -135,24 +137,30 @@ CLAIMED["C03"] = dict(
     text="Kernel-checked theorems (proved part, names …_partial): for a located entry the block loops of both tools report no corruption and "
          "write nothing on the track generated for the same content - every content/size incl. empty, every message-length function, every "
          "deterministic hash, every decoder (never consulted); exit 0. Uses the C10 layout-agreement theorems; the check clause for "
-         "--no_fast_check is C11_accepts. End-to-end clause (all processed, 0 corrupted/skipped, nothing written, relocated root, single-file "
-         "input, long/odd names) decided by differential execution of the real tools each run.",
+         "--no_fast_check is C11_accepts. Run level: C03_run_pristine - the ecc file AS GENERATED for any list of files, run through the "
+         "model of the real loop: every file found, processed, uncorrupted, nothing written or skipped, counters (n,0,0,0,0), exit 0 (side "
+         "conditions: the format's documented limits); C03_clean_ops_A/B discharge the codec hypotheses for the facade. Relocated root, "
+         "single-file input, long/odd names decided by differential execution of the real tools each run.",
     design="§6 C03", technique="Lean 4 proof (per-file logic, via layout agreement) + end-to-end differential execution of the tools",
     note=_ECC_NOTE)
 CLAIMED["C01"] = dict(
     text="Kernel-checked theorems (proved part, names …_partial): if every assembled block is intact-and-accepted or detected-and-decoded to "
          "the original with verifying hash/parity, the file written is exactly the original (whole tool) / original protected region + "
          "damaged tail verbatim (header tool), completely repaired, exit 0. The per-block premise follows from C02_decode_exact_* + "
-         "C11_accepts under contract W for damage within capacity (and no hash collision in default mode); that instantiation and the "
-         "entry level are decided by differential execution: real generate / damage-within-capacity (at the bound, natural erasures "
-         "counted) / correct runs.",
+         "C11_accepts under contract W for damage within capacity: C01_block_premise_A/B(_erasures), proved. Run level: "
+         "C01_run_within_capacity, and the chain C01_chain_A/B with byte-level hypotheses only (lengths unchanged, per assembled block at "
+         "most floor((n-k)/2) wrong symbols of message+parity, hash bytes free, no hash collision on the block in default mode, contract W): "
+         "every file found and written back equal to the original, exit 0. Also decided by differential execution: real generate / "
+         "damage-within-capacity (at the bound, natural erasures counted) / correct runs.",
     design="§6 C01", technique="Lean 4 proof (per-file logic under a per-block repair premise) + end-to-end differential execution at the capacity bound",
     note=_ECC_NOTE + " Contract W of the third-party decoders as in C02; codecs 1/2 with erasure handling excluded (F19).")
 CLAIMED["C13"] = dict(
     text="Kernel-checked theorems (proved part): on a track truncated at ANY offset the blocks whose hash+parity lie wholly before the cut are "
          "assembled identically and the repair loop writes the same bytes for them; every output has the input's length (arbitrary hash and "
-         "decoder), so the file of the cut entry is never damaged. Entries wholly before the cut keep their bounds by C14_call. Normal "
-         "termination and identical handling of earlier entries on real prefixes (cuts in preamble, markers, every field, between hash and "
+         "decoder), so the file of the cut entry is never damaged; a block whose parity was cut is committed only on a hash match "
+         "(C13_cut_block_safe). Run level: C13_run_cut_prefix (every entry lying with its closing marker before the cut is processed "
+         "exactly as with the complete file) and C13_run_output_length (ANY bytes as ecc file: whatever is written has the length of the "
+         "current file). Normal termination of the real loops and identical handling of earlier entries on real prefixes (cuts in preamble, markers, every field, between hash and "
          "parity, entry boundaries; thorough: every offset) decided by differential execution.",
     design="§6 C13", technique="Lean 4 proof (prefix stability of assembly and repair loop, length preservation) + cut-offset sweep on the real tools",
     note=_ECC_NOTE)
@@ -186,13 +194,18 @@ CLAIMED["C08"] = dict(
          "marker destroyed (bytes glued to the previous entry) the buffered scanner still returns every other entry, in order, with exactly "
          "its own bytes, for every buffer size, and the loop reaches the end of the file; an entry with trailing bytes glued to its track is "
          "split into the same fields and its blocks are assembled exactly as before in both tools; per-entry processing is an arbitrary "
-         "function of the entry's own bytes. That the real per-entry code reads nothing else, never raises whatever the entry holds, and the "
-         "results of non-victim files on really damaged ecc files are decided by differential execution (13 damage classes incl. garbage "
-         "0-3x the entry, destroyed markers/delimiters, non-numeric size, entries cut to a few bytes).",
+         "function of the entry's own bytes. Run level (model of the real per-entry code, position-based reads and cursor included): "
+         "C08_run_visits (the loop processes exactly the intended entries whatever they hold and wherever the cursor is left), "
+         "C08_run_local, C08_run_reads_inside, C08_run_independent(_header): replacing one entry by arbitrary bytes leaves path, status, "
+         "result and effect of every other entry unchanged (whole-file tool: for entries whose track is not shorter than their file "
+         "requires - every generated entry). That the real code never raises whatever the entry holds, and the results of non-victim files "
+         "on really damaged ecc files, are also decided by differential execution (16 damage classes incl. garbage 0-3x the entry, "
+         "destroyed markers/delimiters, non-numeric size, entries cut to a few bytes, tail cut, empty entry).",
     design="§6 C08", technique="Lean 4 proof (corollaries of the scanner, field and layout theorems) + victim-damage differential execution of the tools",
     note="Trusted: Lean kernel and standard axioms; model validated by sampling (scanner on real damaged files, per-file replay); PARTIAL: "
-         "no composed theorem about the real per-entry code (the whole-file tool works on file positions; its reads are bounded by the entry "
-         "after the repairs 60c7fba, af0338d); damage spelling an additional marker is the format's documented limit.")
+         "run model validated by replaying complete real runs on victim scenarios; damage spelling an additional marker is the format's "
+         "documented limit; for the whole-file tool an entry whose own track is shorter than its file requires reads the first bytes of the "
+         "next entry (stated hypothesis readsInside).")
 CLAIMED["C18"] = dict(
     text="Kernel-checked theorems over a model of what `pff dup -d` does with one group of copies (single copy copied; first copy matching "
          "the database used; else the C06 majority vote; then the written file compared with the row of its own relative path) for ANY "
